@@ -61,7 +61,10 @@ fn main() {
         }
         "c14" => {
             let rep = Report::new("C14", "model_checking");
-            let cov = c07::run_c14(&rep);
+            let mut cov = c07::run_c14(&rep);
+            let rx = c06::run_c14(&rep);
+            for k in ["states", "transitions", "traces_validated_against_impl"] { cov[k] = serde_json::json!(cov[k].as_u64().unwrap_or(0) + rx[k].as_u64().unwrap_or(0)); }
+            cov["receiving_side"] = rx["rule_c14"].clone();
             rep.finish(cov)
         }
         "c09" => {
